@@ -146,3 +146,46 @@ pub fn arg_value(args: &[String], key: &str) -> Option<String> {
         .position(|a| a == key)
         .and_then(|i| args.get(i + 1).cloned())
 }
+
+
+// ------------------------------------------------------------------------------------------
+// Watchdog: a call into the code under test that does not return is an observation, not a tool
+// problem.  `watch(desc)` arms a deadline for the current case, `unwatch()` disarms it; when the
+// deadline passes the process prints {"k":"hang","what":<desc>} and exits with status 3.
+// ------------------------------------------------------------------------------------------
+static WATCH: std::sync::Mutex<Option<(std::time::Instant, String)>> = std::sync::Mutex::new(None);
+static WATCH_STARTED: std::sync::Once = std::sync::Once::new();
+
+pub fn hang_limit() -> std::time::Duration {
+    let secs = std::env::var("VERIF_HANG_SECS").ok().and_then(|s| s.parse::<u64>().ok()).unwrap_or(120);
+    std::time::Duration::from_secs(secs)
+}
+
+pub fn watch(desc: impl FnOnce() -> String) {
+    WATCH_STARTED.call_once(|| {
+        std::thread::spawn(|| loop {
+            std::thread::sleep(std::time::Duration::from_millis(250));
+            let fired = {
+                let g = WATCH.lock().unwrap_or_else(|e| e.into_inner());
+                match &*g {
+                    Some((t0, what)) if t0.elapsed() > hang_limit() => Some(what.clone()),
+                    _ => None,
+                }
+            };
+            if let Some(what) = fired {
+                use std::io::Write;
+                let v: serde_json::Value = serde_json::from_str(&what).unwrap_or(serde_json::Value::String(what));
+                println!("{}", serde_json::json!({"k": "hang", "what": v, "limit_s": hang_limit().as_secs()}));
+                let _ = std::io::stdout().flush();
+                std::process::exit(3);
+            }
+        });
+    });
+    let mut g = WATCH.lock().unwrap_or_else(|e| e.into_inner());
+    *g = Some((std::time::Instant::now(), desc()));
+}
+
+pub fn unwatch() {
+    let mut g = WATCH.lock().unwrap_or_else(|e| e.into_inner());
+    *g = None;
+}
